@@ -57,7 +57,7 @@ ENC_ROUTES = ['der.encode.to_der', 'der.encode.to_slice', 'der.encode.to_vec', '
 DEC_ROUTES = ['der.from_der', 'der.from_der.from_ber', 'der.from_der.reader', 'der.from_der.reader_decode']
 ANY_ROUTES = ['der.from_any.try_from', 'der.from_any.try_into', 'der.from_any.decode_as']
 UREF_ROUTES = ['der.from_uintref.try_from', 'der.from_uintref.try_into']
-RLP_ENC_ROUTES = ['rlp.encode', 'rlp.encode.stream', 'rlp.encode.rlp_bytes', 'rlp.encode.list_item']
+RLP_ENC_ROUTES = ['rlp.encode', 'rlp.encode.stream', 'rlp.encode.rlp_bytes', 'rlp.encode.list_item', 'rlp.encode.list_first_of_two', 'rlp.encode.list_pair']
 RLP_DEC_ROUTES = ['rlp.decode', 'rlp.decode.as_val', 'rlp.decode.trait']
 
 
